@@ -31,11 +31,13 @@ Record cgr := mkCgr {
 Definition or0 (o : option Z) : Z := match o with Some v => v | None => 0 end.
 
 (* DynamicBond.__int__ = hash(self) = hash((self.order or 0, self.p_order or 0)) *)
-Definition cbond_int (b : cbond) : Z := tuple_hash_lanes [hash_int (or0 (cb_ord b)); hash_int (or0 (cb_pord b))].
+(* (tuple_hash_lanes_fast is Model.PyHash.tuple_hash_lanes evaluated with bit masks: FingerprintProofs.tuple_hash_lanes_fast_eq;
+   FingerprintCGRProofs.cbond_int_pyhash / cgr_atom_identifier_pyhash state the two definitions below with PyHash's function) *)
+Definition cbond_int (b : cbond) : Z := tuple_hash_lanes_fast [hash_int (or0 (cb_ord b)); hash_int (or0 (cb_pord b))].
 
 (* FingerprintsCGR._atom_identifiers *)
 Definition cgr_atom_identifier (a : catom) : Z :=
-  tuple_hash_lanes [hash_int (or0 (ca_iso a)); hash_int (ca_num a); hash_int (ca_chg a); hash_int (ca_pchg a);
+  tuple_hash_lanes_fast [hash_int (or0 (ca_iso a)); hash_int (ca_num a); hash_int (ca_chg a); hash_int (ca_pchg a);
                     hash_bool (ca_rad a); hash_bool (ca_prad a)].
 Definition cgr_atom_identifiers (c : cgr) : list (Z * Z) :=
   map (fun na => (fst na, cgr_atom_identifier (snd na))) (c_atoms c).
